@@ -168,6 +168,10 @@ def parseGTok (t : String) : Option GTok :=
 
 def CallRec.gtoks (c : CallRec) : List GTok := c.game.filterMap parseGTok
 
+/-- The tokens that correspond one-to-one to requests (glitch markers removed). -/
+def CallRec.reqToks (c : CallRec) : List GTok :=
+  c.gtoks.filter fun t => match t with | .g .. => false | _ => true
+
 /-- All simulations a session ran, in order. -/
 def simsOf (sc : Scen) (sid : Nat) : List Sim := Id.run do
   let mut out : List Sim := []
